@@ -177,14 +177,11 @@ theorem envFrame_deleteDeps (s : KState) (p : Dep → Bool) : EnvFrame s (s.dele
   unfold KState.deleteDeps
   exact envFrame_foldl_flagDepEndpoints _ _
 
-theorem envFrame_initStepRow (s : KState) (k : Key) (i : StepInit) : EnvFrame s (s.initStepRow k i) := by
-  unfold KState.initStepRow
-  exact envFrame_modify _ _ _ (fun n => rfl)
-
-/-- The partial recycle of a step (`Trellis.create` on an existing detached step node) keeps the
-`env_var` rows of every node, the recycled step included. -/
-theorem envFrame_recycleCore_step (s s' : KState) (k : Key) (n : Node) (creator : Option Key) (i : StepInit)
-    (h : s.recycleCore k n creator (.step i) = .ok s') : EnvFrame s s' := by
+/-- Up to the re-creation of the `step` row, the partial recycle of a step (`Trellis.create` on an
+existing detached step node) keeps the `env_var` rows of every node; `initStepRow` then clears
+those of the recycled step (`Step.initialize_row` deletes them since commit 7574d5c). -/
+theorem recycleCore_step_split (s s' : KState) (k : Key) (n : Node) (creator : Option Key) (i : StepInit)
+    (h : s.recycleCore k n creator (.step i) = .ok s') : ∃ s3, EnvFrame s s3 ∧ s' = s3.initStepRow k i := by
   unfold KState.recycleCore at h
   simp only [bind, Except.bind] at h
   cases h1 : s.setCreator k creator (s.creatorDetached creator) with
@@ -199,9 +196,8 @@ theorem envFrame_recycleCore_step (s s' : KState) (k : Key) (n : Node) (creator 
       | error e => simp [h3] at h
       | ok s3 =>
         simp only [h3, KState.initRow, pure, Except.pure, Except.ok.injEq] at h
-        subst h
-        exact (envFrame_setCreator _ _ _ _ _ h1).trans <| (envFrame_lostProduct _ _ _ h2).trans <|
-          (envFrame_deleteDeps s2 _).trans <| (envFrame_detachProducts _ _ _ h3).trans (envFrame_initStepRow s3 k i)
+        exact ⟨s3, (envFrame_setCreator _ _ _ _ _ h1).trans <| (envFrame_lostProduct _ _ _ h2).trans <|
+          (envFrame_deleteDeps s2 _).trans (envFrame_detachProducts _ _ _ h3), h.symm⟩
 
 /-- Reading one node through an `EnvFrame`. -/
 theorem envFrame_find? (s s' : KState) (h : EnvFrame s s') (k : Key) :
